@@ -31,7 +31,7 @@ from ..explore import procstate
 LEVEL = "model_checking"
 
 CFGS = [("I", "plain"), ("C", "plain"), ("I", "decl"), ("C", "decl"), ("I", "pkg"), ("C", "pkg")]
-EXPRS = ["x + 1", "a.b", "[1, 2].map(v, v + x)", "has(m.f) ? m.f : 0", "x > 1 || y", '"lit" + s', "f(x)", "f(x)"]
+EXPRS = ["x + 1", "a.b", "[1, 2].map(v, v + x)", "has(m.f) ? m.f : 0", "x > 1 || y", '"lit" + s', "f(x)", "f(x)", "t.getHours(z)"]
 
 
 def hf1(x):
@@ -63,14 +63,17 @@ BINDS = [
     {"a": {"b": 3}},
     {"m": {"f": 5}},
     {"m": {}},
+    {"t": ("ts", "2020-01-01T12:00:00Z"), "z": "+05:30", "x": 3},
+    {"t": ("ts", "2020-01-01T12:00:00Z"), "z": "-05:30", "x": 4},
 ]
+SHARED_BINDS = (1, 2, 8, 9)      # bindings also delivered through ONE caller-owned dict that is updated in place
 _ADDR = re.compile(r"0x[0-9a-fA-F]+")
 
 
 def alphabets(tier):
     if tier == "thorough":
-        return list(range(6)), list(range(8)), list(range(8))
-    return list(range(4)), [0, 1, 2, 3, 6, 7], list(range(6))
+        return list(range(6)), list(range(9)), list(range(10))
+    return list(range(4)), [0, 1, 2, 6, 7, 8], [0, 1, 2, 3, 8, 9]
 
 
 def to_cel(v):
@@ -83,6 +86,8 @@ def to_cel(v):
         return ct.StringType(v)
     if isinstance(v, dict):
         return ct.MapType({ct.StringType(k): to_cel(x) for k, x in v.items()})
+    if isinstance(v, tuple) and v[0] == "ts":
+        return ct.TimestampType(v[1])
     raise TypeError(v)
 
 
@@ -116,6 +121,7 @@ class World:
         self.env_gen = 0              # which environment object is current (an AST belongs to the environment that compiled it)
         self.progs = [None, None]     # (runner, cfg index, expr index) or ("failed", outcome, cfg, expr)
         self.last = [None, None]      # (bindings index, outcome)
+        self.shared = {}              # one caller-owned mapping, updated in place between calls
 
     def enabled(self, ci_set, ei_set, bi_set):
         ev = [("env", c) for c in ci_set]
@@ -129,6 +135,7 @@ class World:
         for t in (0, 1):
             if self.progs[t] is not None:
                 ev += [("eval", t, b) for b in bi_set]
+                ev += [("evalshared", t, b) for b in bi_set if b in SHARED_BINDS]
                 if self.last[t] is not None:
                     ev.append(("reeval", t))
         return ev
@@ -168,14 +175,19 @@ class World:
                 self.progs[t] = ("failed", outcome.of_exception(ex, "program"), self.env_cfg, e, None, self.env_gen)
             self.last[t] = None
             return None
-        if k in ("eval", "reeval"):
+        if k in ("eval", "reeval", "evalshared"):
             t = ev[1]
-            b = ev[2] if k == "eval" else self.last[t][0]
+            b = ev[2] if k in ("eval", "evalshared") else self.last[t][0]
             st, r, ci, e, _ast, _gen = self.progs[t]
             if st == "failed":
                 o = r
             else:
-                bind = make_bindings(b)
+                if k == "evalshared":
+                    self.shared.clear()
+                    self.shared.update(make_bindings(b))
+                    bind = self.shared      # the SAME mapping object as in every earlier evalshared call
+                else:
+                    bind = make_bindings(b)
                 before = plain_bindings(bind)
                 o = outcome.run(lambda: r.evaluate(bind), "evaluate")
                 after = plain_bindings(bind)
@@ -208,6 +220,11 @@ class World:
             if tp is not None:
                 desc.append(_ADDR.sub("0x", repr(tp.base_activation.identifiers))[:4000])
                 desc.append(tp.activation is tp.base_activation)
+                # anything else a transpiler object carries (e.g. a remembered context): by structure, and
+                # whether it IS the caller-owned shared mapping
+                desc.append(sorted((k, _ADDR.sub("0x", repr(v))[:300], v is self.shared) for k, v in vars(tp).items()
+                                   if k not in ("ast", "executable_code", "source_text", "base_activation", "activation", "logger")))
+            desc.append(sorted((k, _ADDR.sub("0x", repr(v))[:200], v is self.shared) for k, v in vars(r).items() if k not in ("ast", "environment", "tp", "logger", "functions")))
             slots.append(("ok", repr(desc)))
         parts.append(tuple(sorted(slots, key=repr)))
         parts.append(tuple(procstate.diff_names(snap)))
@@ -249,7 +266,7 @@ def exhaustive_shard(task):
         w, viol, obs, _ = run_history(hist, refs, snap)
         left = procstate.restore(snap)
         count[0] += 1
-        part.case(nontrivial=any(e[0] in ("eval", "reeval") for e in hist))
+        part.case(nontrivial=any(e[0] in ("eval", "reeval", "evalshared") for e in hist))
         for o in obs:
             if o is not None:
                 part.outcome(outcome.label(o))
@@ -269,7 +286,7 @@ def exhaustive_shard(task):
                 elif k in ("prog", "reprog"):
                     w2.progs[ev[1]] = ("ok", None, None, ev[2], None, w2.env_gen)
                     w2.last[ev[1]] = None
-                elif k == "eval":
+                elif k in ("eval", "evalshared"):
                     w2.last[ev[1]] = True
             for ev in w2.enabled(ci_set, ei_set, bi_set):
                 rec(hist + [list(ev)])
@@ -297,8 +314,8 @@ def fmt(hist):
             out.append(f"prog({ev[1]}, {EXPRS[ev[2]]!r}{', f=hf%d' % (ev[2] - 5) if ev[2] >= 6 else ''})")
         elif ev[0] == "reprog":
             out.append(f"reprog({ev[1]}, from the AST of slot {1 - ev[1]}{', f=hf%d' % (ev[2] - 5) if ev[2] >= 6 else ''})")
-        elif ev[0] == "eval":
-            out.append(f"eval({ev[1]}, {BINDS[ev[2]]})")
+        elif ev[0] in ("eval", "evalshared"):
+            out.append(f"{ev[0]}({ev[1]}, {BINDS[ev[2]]})")
         else:
             out.append(f"reeval({ev[1]})")
     return "[" + ", ".join(out) + "]"
@@ -319,7 +336,7 @@ def bfs_expand(task):
             h2 = hist + [list(ev)]
             w2, viol, obs, dg = run_history(h2, refs, snap, want_digest=True)
             procstate.restore(snap)
-            part.case(nontrivial=ev[0] in ("eval", "reeval"))
+            part.case(nontrivial=ev[0] in ("eval", "reeval", "evalshared"))
             if obs[-1] is not None:
                 part.outcome(outcome.label(obs[-1]))
             for kind, d in viol:
@@ -461,7 +478,7 @@ def count_histories(ci_set, ei_set, bi_set, depth, prefixes):
     can be rebuilt from the other slot's AST with either host-function variant).  Assumes every
     program() succeeds, which is the case on a tree where the property holds."""
     import functools
-    nc, nb = len(ci_set), len(bi_set)
+    nc, nb = len(ci_set), len(bi_set) + len([b for b in bi_set if b in SHARED_BINDS])
     plain = [e for e in ei_set if len([e2 for e2 in same_text(e) if e2 in ei_set]) == 1]
     multi = [e for e in ei_set if e not in plain]
     n_plain, n_multi = len(plain), len(multi)
@@ -528,7 +545,7 @@ if __name__ == "__main__":
                 cur = ev[1]
             elif ev[0] in ("prog", "reprog"):
                 progs[ev[1]] = (cur, ev[2])
-            elif ev[0] == "eval":
+            elif ev[0] in ("eval", "evalshared"):
                 needed.add(progs[ev[1]] + (ev[2],))
         refs = {}
         for k in needed:
